@@ -15,7 +15,7 @@ def params : Params :=
 def parseDType : Sx → Option DType
   | .atom "f" => some .float
   | .atom "b" => some .bool
-  | .list [.atom "i", w, s] => do some (.int (← w.toNat?) (← s.toBool?))
+  | .list [.atom "i", w, s, be] => do some (.int (← w.toNat?) ⟨← s.toBool?, ← be.toBool?⟩)
   | _ => none
 
 def parseDigit : Sx → Option Digits
@@ -61,7 +61,7 @@ def kindSx : Kind → Sx
   | .float => .atom "f" | .int => .atom "i" | .bool => .atom "b"
 def dtypeSx : DType → Sx
   | .float => .atom "f" | .bool => .atom "b"
-  | .int w s => .list [.atom "i", Sx.ofNat w, Sx.ofBool s]
+  | .int w s => .list [.atom "i", Sx.ofNat w, Sx.ofBool s.signed, Sx.ofBool s.be]
 def digitSx : Digits → Sx
   | .double => .atom "D" | .single => .atom "S" | .num => .atom "N"
 def itemsSx (items : List Item) : Sx := .list (items.map Sx.ofNats)
@@ -70,7 +70,7 @@ def vstepSx : VStep → Sx
   | .allMasked => .list [.atom "AM"]
   | .antimasked => .list [.atom "ANTI"]
   | .float d => .list [.atom "FLOAT", digitSx d]
-  | .int v (some (w, s)) => .list [.atom "INT", Sx.ofNats v, .list [Sx.ofNat w, Sx.ofBool s]]
+  | .int v (some (w, s)) => .list [.atom "INT", Sx.ofNats v, .list [Sx.ofNat w, Sx.ofBool s.signed, Sx.ofBool s.be]]
   | .int v none => .list [.atom "INT", Sx.ofNats v]
   | .bool v sz => .list [.atom "BOOL", Sx.ofNats v, Sx.ofNat sz]
 def mstepSx : MStep → Sx
